@@ -38,6 +38,22 @@ def lua_contracts():
     )]
 
 
+def begline_contracts():
+    """BegLineDisableManager (used by the parser while it walks the arguments of a call): representation invariant
+    `begline_enabled == (begline_disable_counter == 0)`, counter >= 0.  __enter__ / __exit__ keep it, so line-start
+    markup inside arguments stays plain text until the OUTERMOST with-block is left."""
+    inv = ["ctx.begline_disable_counter >= 0", "ctx.begline_enabled == (ctx.begline_disable_counter == 0)"]
+    return [
+        Contract(target="core:BegLineDisableManager.__enter__", prop="C14", mode="value", params={"self": "ctxholder"},
+                 requires=list(inv),
+                 ensures=inv + ["ctx.begline_disable_counter == old(ctx.begline_disable_counter) + 1"], raises=[], result="none"),
+        Contract(target="core:BegLineDisableManager.__exit__", prop="C14", mode="value",
+                 params={"self": "ctxholder", "exc_type": "opq", "exc_value": "opq", "trace": "opq"},
+                 requires=inv + ["ctx.begline_disable_counter >= 1"],
+                 ensures=inv + ["ctx.begline_disable_counter == old(ctx.begline_disable_counter) - 1"], raises=[], result="none"),
+    ]
+
+
 def setup_registry(reg):
     c04.setup_registry(reg)
 
@@ -46,4 +62,4 @@ _orig_contracts = contracts
 
 
 def all_contracts():
-    return _orig_contracts() + lua_contracts()
+    return _orig_contracts() + lua_contracts() + begline_contracts()
